@@ -28,6 +28,7 @@ def run(ctx):
     ctx.guard(access, ctx)
     ctx.guard(normalise, ctx)
     ctx.guard(kwargs_rule, ctx)
+    ctx.guard(cells, ctx)
     ctx.guard(typecase, ctx, ['xtuml.meta'], 'C10-TYPECASE')
     from . import c03 as _c03
     from .common import AssocModel as _AM
@@ -35,9 +36,10 @@ def run(ctx):
     from . import c02 as _c02
     ctx.shared(_c02.ref_rule, ctx, _AM(ctx.repo))   # referential attributes have ONE value: the stored copies are stripped, reads go through the link
     from . import c09 as _c09
+    ctx.shared(_c09.nav, ctx)                   # class names given to a navigation are resolved case-insensitively on both hops
     ctx.shared(_c09.where_filter, ctx)          # equality filters read attributes the way every other reader does (getattr)
-    ctx.assume('attribute values live in instance.__dict__ under the declared spelling (MetaClass.new sets '
-               'every declared attribute), so a second cell can only appear through the three dunder methods')
+    ctx.assume('MetaClass.new sets every declared attribute; with C10-CELLS (who writes an instance dictionary) a second cell can only '
+               'appear through the three dunder methods')
     return ('Abstract execution of Class.__getattr__/__setattr__/__delattr__ over every combination of '
             '(spelling matches a declared attribute?, spelling identical?, value stored?, other keys present?) '
             'recording which storage cell each path touches; normaliser agreement at every keyed access to '
@@ -45,6 +47,67 @@ def run(ctx):
 
 
 # ---------------------------------------------------------------------------
+def cells(ctx):
+    """who-may-write: an instance dictionary is written (a) by Class.__setattr__ / __delattr__ (decided by C10-ACCESS) and (b) by code that
+    stores under the DECLARED spelling, i.e. a key bound by iterating <metaclass>.attributes.  Anything else (update() with another
+    instance's dictionary, a key spelled by the caller) can create a second cell for an attribute under another spelling."""
+    repo = ctx.repo
+    r = ctx.rule('C10-CELLS', 'instance dictionaries are written only under the declared spelling of an attribute', floor=3,
+                 oracle='Class.__getattr__ / __setattr__ resolve a name to the declared spelling first')
+    n = 0
+    for modname in sorted(repo.modules):
+        mod = repo.modules[modname]
+        for fn in [x for x in ast.walk(mod.tree) if isinstance(x, ast.FunctionDef)]:
+            owner = getattr(fn, '_parent', None)
+            in_class_dunder = isinstance(owner, ast.ClassDef) and owner.name == 'Class' and fn.name in ('__setattr__', '__delattr__', '__init__')
+            q = '%s:%s%s' % (modname, owner.name + '.' if isinstance(owner, ast.ClassDef) else '', fn.name)
+
+            def declared(key):
+                """is `key` bound by a loop over <x>.attributes (directly, or by unpacking the loop variable)?"""
+                if not isinstance(key, ast.Name):
+                    return False
+                loops = [l for l in ast.walk(fn) if isinstance(l, (ast.For, ast.comprehension)) and '.attributes' in src(l.iter)
+                         and 'referential' not in src(l.iter)]
+                for l in loops:
+                    tn = set(x.id for x in ast.walk(l.target) if isinstance(x, ast.Name))
+                    if key.id in tn:
+                        return True
+                    for a in ast.walk(fn):
+                        if isinstance(a, ast.Assign) and isinstance(a.value, ast.Name) and a.value.id in tn and \
+                                key.id in set(x.id for t in a.targets for x in ast.walk(t) if isinstance(x, ast.Name)):
+                            return True
+                return False
+            for node in walk_local(fn):
+                site = None
+                if isinstance(node, (ast.Assign, ast.AugAssign)):
+                    for t in (node.targets if isinstance(node, ast.Assign) else [node.target]):
+                        if isinstance(t, ast.Subscript) and (isinstance(t.value, ast.Attribute) and t.value.attr == '__dict__' or
+                                                             isinstance(t.value, ast.Call) and dotted(t.value.func) == 'vars'):
+                            site = ('store', t.slice, t)
+                        if isinstance(t, ast.Attribute) and t.attr == '__dict__':
+                            site = ('replace', None, t)
+                elif isinstance(node, ast.Call) and isinstance(node.func, ast.Attribute) and node.func.attr in ('update', 'setdefault', '__setitem__') and \
+                        (isinstance(node.func.value, ast.Attribute) and node.func.value.attr == '__dict__' or
+                         isinstance(node.func.value, ast.Call) and dotted(node.func.value.func) == 'vars'):
+                    site = (node.func.attr, node.args[0] if node.args and node.func.attr != 'update' else None, node)
+                elif isinstance(node, ast.Call) and dotted(node.func) == 'object.__setattr__':
+                    site = ('object.__setattr__', node.args[1] if len(node.args) > 1 else None, node)
+                if site is None:
+                    continue
+                obj = src(site[2]).split('.__dict__')[0]
+                if obj == 'self' and not (isinstance(owner, ast.ClassDef) and owner.name == 'Class'):
+                    continue            # a walker / loader / metaclass writing its own dictionary: not a model instance
+                n += 1
+                ok = in_class_dunder or (site[0] in ('store', 'setdefault', '__setitem__', 'object.__setattr__') and site[1] is not None and declared(site[1]))
+                r.check(ok, '%s writes an instance dictionary under a declared attribute name' % q, site[2], construct=q, key='cell-write ' + site[0],
+                        msg='%s writes the dictionary of an instance directly (`%s`) %s: a name spelled in another letter case than the declared attribute '
+                            'gets a second storage cell, after which the spellings of one attribute can hold different values'
+                            % (q, src(node)[:80], 'with keys that are not bound by iterating <metaclass>.attributes' if site[1] is not None
+                               else 'wholesale (keys as the other dictionary happens to spell them)'))
+    if n < 3:
+        raise AnalysisError('only %d writes of instance dictionaries found (expected the loader\'s two and Class.__setattr__)' % n)
+
+
 class Elem(object):
     def __init__(self, match, label):
         self.match = match
